@@ -105,6 +105,14 @@ var debugFields = map[string]bool{
 }
 
 // C13: options do only what they say.
+// the exit test of a loop
+var reLoopAtom = regexp.MustCompile(`^loop\d+\(`)
+
+// "did the validation above fail": a merge of fresh errors and nil tested for nil (a helper that
+// hands back the root element together with an error); its truth is fixed by the documented
+// conditions decided before it
+var reErrMergeAtom = regexp.MustCompile(`^μ\((errors\.New\("[^"]*"\)|nil)(\|(errors\.New\("[^"]*"\)|nil))+\) == nil$`)
+
 func C13(p *core.Program, r *core.Report) {
 	r.Explanation = "L1: values of log-flag predicates (Logger.IsLog*, hasFlag, logger==nil) are used only as branch conditions. L2: for every such branch the log region (the blocks that become unreachable when the logging-enabled edge is removed) is write-only: it stores only into locals created inside it or into the two reviewed debug maps, calls only log sinks, unanalysed standard-library formatting, or functions whose effect summary (PEA) writes no tracked region, parameter, package-level state or pre-existing struct field other than those debug maps; no value computed inside the region is merged back into the normal flow (phi) and no result-bearing return sits inside it. L3/L4: all decision paths of Apply are enumerated with the stores into Result as events: PaginationInfo is stored exactly when !SkipPagination && OriginalURL != nil (and, where Apply tests it, the URL has a host), URL exactly when OriginalURL != nil and from OriginalURL.String(), every other result field is stored on every successful path from values that mention neither pagination option, and Apply branches on nothing but the documented conditions. L5: the pagination finders write neither the document nor the page URL they are given (effect summaries), so the choice of algorithm cannot leak into later results. L6: no code below the entry points writes the caller's Options or the URL they point to (effect analysis, shared with C10), so Result.URL, rendered after extraction, is the supplied URL. L2 also treats append/copy into a re-slice of storage that exists outside the log region (filter-in-place) as a write. L7: ApplyForURL works with the supplied string parsed by url.Parse (fragment-aware), so Result.URL is the supplied URL. L8: the options ApplyForURL hands on are one whole-struct copy of the caller's with only OriginalURL set afterwards."
 	r.NotCovered = "that both pagination algorithms agree with each other; wall-clock TimingInfo; effects of logging on the log output stream itself."
@@ -490,7 +498,7 @@ func C13(p *core.Program, r *core.Report) {
 	}
 	var extra []string
 	for at := range atoms {
-		if wantAtoms[at] || reRootFound.MatchString(at) || strings.Contains(at, "distiller.LogTiming") || strings.Contains(at, ".IsLogTiming(") || strings.HasPrefix(at, "loop1(") {
+		if wantAtoms[at] || reRootFound.MatchString(at) || strings.Contains(at, "distiller.LogTiming") || strings.Contains(at, ".IsLogTiming(") || reLoopAtom.MatchString(at) || reErrMergeAtom.MatchString(at) {
 			continue
 		}
 		extra = append(extra, at)
